@@ -348,7 +348,8 @@ def reset_halmos_globals():
 
 def run_under_sim(ch, main_fn, *, solver="yices", plan=None, fault_rate=0.0, kinds=None, preempt_k=0,
                   uid_mode="random", max_steps=60000, keep_log=False, latency=True, stub_cls=SolverStub,
-                  fresh=True, tmp_prefix="runsim-", unknown_rate=0.0, gc_rate=0.0, fs_plan=None) -> RunSimResult:
+                  fresh=True, tmp_prefix="runsim-", unknown_rate=0.0, gc_rate=0.0, fs_plan=None,
+                  interrupt=None) -> RunSimResult:
     """run main_fn() (which calls into halmos) as the main task of a simulation"""
     from .engine import LogCapture
 
@@ -358,6 +359,9 @@ def run_under_sim(ch, main_fn, *, solver="yices", plan=None, fault_rate=0.0, kin
               keep_log=keep_log)
     stub = stub_cls(sim, ch, solver=solver, plan=plan, fault_rate=fault_rate, kinds=kinds, latency=latency)
     out.sim, out.stub = sim, stub
+    if interrupt is not None:
+        # (steps, handler): a signal handler run on the main task's stack at one of its scheduling points
+        sim.set_interrupt("main", interrupt[0], interrupt[1])
     seams = Seams()
     uid = UidSeam(ch, uid_mode)
     from .engine import EngineSeams
